@@ -302,7 +302,8 @@ namespace {
       if (rd.bad || ne > 100000) return "bad-op";
       for (unsigned long k = 0; k != ne; ++k) script.push_back(rd.entry(N));
       if (rd.bad || rd.pos != rd.toks.size()) return "bad-op";
-      // every workspace member gets a defined value (the classes leave them uninitialised)
+      // initial content of the workspace (the arrays are zero after construction; the script may model a
+      // solver object reused after a previous resolution)
       for (unsigned short i = 0; i != N; ++i) {
         this->zeros[i] = x0[i];
         this->fzeros[i] = 0;
